@@ -36,6 +36,17 @@ Proof.
     eexists; split; [eauto | split; [apply N' | left; split; [cbn [stk adv set_stk]; apply A | reflexivity]]].
   - eexists; split; [eauto | split; [apply U | right; right; exists m; simpl; split; [| split]; auto]].
     unfold locks_of at 1; simpl. f_equal. apply (A ops').
+  - (* an error passes a block / tagbody frame *)
+    eexists; split; [eauto | split; [apply U | left; simpl; split; auto]]. rewrite ST. unfold locks_of; simpl.
+    match goal with K : fk f = KBlock _ _ |- _ => rewrite K end. auto.
+  - (* an exit marker leaves a frame that is not a lock *)
+    eexists; split; [eauto | split; [apply U | left; simpl; split; auto]]. rewrite ST. unfold locks_of; simpl.
+    destruct (fk f) eqn:K; auto. exfalso. match goal with N : forall m, _ <> KLock m |- _ => eapply N; eauto end.
+  - (* an exit marker leaves a with-mutex-lock: the deferred Unlock *)
+    eexists; split; [eauto | split; [apply U | right; left; exists m; simpl; split; auto]]. rewrite ST. unfold locks_of; simpl.
+    match goal with K : fk f = KLock m |- _ => rewrite K end. auto.
+  - (* the marker is dropped, the frame carries on *)
+    eexists; split; [eauto | split; [apply U | left; split; reflexivity]].
 Qed.
 
 Lemma lock_inv_init : forall p, lock_inv (init p).
